@@ -54,10 +54,13 @@ EventsOK(Q) == /\ SameBag(Q.evs, CanonE(E.obs.evs))
 \* C06, client side: what a submit hands to the connection - one message for the addressed property listing exactly the
 \* elements assigned since the last submit, with the assigned values; an assignment alone sends nothing and changes no mirrored value
 CanonS(ms) == [i \in DOMAIN ms |-> [dev |-> ms[i].dev, vec |-> ms[i].vec, kind |-> ms[i].kind, els |-> [j \in DOMAIN ms[i].els |-> <<ms[i].els[j][1], ms[i].els[j][2]>>]]]
-SentOK(Q) == /\ Len(Q.sent) = Len(E.obs.sent)
-             /\ \A i \in DOMAIN Q.sent : LET a == Q.sent[i]  b == CanonS(E.obs.sent)[i] IN
+\* (a submit with nothing assigned writes nothing at the driver: whether an empty message is sent or none at all is not part of C06)
+NonEmpty(ms) == SelectSeq(ms, LAMBDA m : m.els # <<>>)
+SentOK(Q) == /\ Len(NonEmpty(Q.sent)) = Len(NonEmpty(CanonS(E.obs.sent)))
+             /\ \A i \in DOMAIN NonEmpty(Q.sent) : LET a == NonEmpty(Q.sent)[i]  b == NonEmpty(CanonS(E.obs.sent))[i] IN
                    /\ a.dev = b.dev /\ a.vec = b.vec /\ a.kind = b.kind
                    /\ Len(a.els) = Len(b.els) /\ Range(a.els) = Range(b.els)       \* the order of the members is not part of C06
+             /\ \A i \in DOMAIN E.obs.sent : E.o = "submit" /\ E.obs.sent[i].dev = E.dev /\ E.obs.sent[i].vec = E.vec
              /\ (E.o \in {"edit", "submit"} => E.obs.evs = <<>> /\ ~E.obs.raised)
 DebugOn == "VERIF_DEBUG" \in DOMAIN IOEnv
 Step == /\ l <= Len(Tr) /\ l' = l + 1 /\ UNCHANGED tid
